@@ -64,6 +64,8 @@ pub struct Gen<'r> {
     scopes: Vec<Vec<Var>>,
     next_id: usize,
     in_head: u32,
+    /// the next call gets a block with an assignment as its first possible argument
+    force_arg_block: bool,
     heavy_budget: i32,
     nodes: usize,
     pure_ctx: u32,
@@ -105,6 +107,7 @@ impl<'r> Gen<'r> {
             scopes: vec![],
             next_id: 0,
             in_head: 0,
+            force_arg_block: false,
             heavy_budget: 1,
             nodes: 0,
             pure_ctx: 0,
@@ -522,7 +525,23 @@ impl<'r> Gen<'r> {
         self.charge(fc);
         self.note("fn-call");
         let ptys: Vec<Ty> = self.fns[fi].params.iter().map(|p| p.ty.clone()).collect();
-        let args = ptys.iter().map(|t| self.gen_expr(t, d.min(2))).collect();
+        let mut args: Vec<Expr> = vec![];
+        for t in &ptys {
+            let a = self.gen_expr(t, d.min(2));
+            // an argument is sometimes a block that assigns to a variable of the caller first (the
+            // arguments are evaluated in the caller's environment, left to right)
+            if d >= 1 && self.in_head == 0 && !t.is_unit() && (std::mem::take(&mut self.force_arg_block) || self.rng.chance(1, 5)) {
+                self.scopes.push(vec![]);
+                let set = self.gen_assign(1);
+                self.scopes.pop();
+                if let Some(set) = set {
+                    self.note("call-argument-block-with-assignment");
+                    args.push(e(ExprKind::Block(Block { stmts: vec![set], tail: Some(Box::new(a)) }), t.clone()));
+                    continue;
+                }
+            }
+            args.push(a);
+        }
         e(ExprKind::Call(fi, args), ty.clone())
     }
 
@@ -817,6 +836,21 @@ impl<'r> Gen<'r> {
         }
     }
 
+    /// The body of a match arm: a block, or (sometimes) just a call of a function whose argument is
+    /// a block that assigns to a variable of the caller (the arm is "a plain value" syntactically,
+    /// its evaluation changes the environment nonetheless).
+    fn arm_block(&mut self, ty: &Ty, d: u32) -> Block {
+        let has_fn = (0..self.fns.len()).any(|i| &self.fns[i].ret == ty && !self.fns[i].params.is_empty());
+        if d >= 1 && has_fn && !ty.is_unit() && self.in_head == 0 && self.rng.chance(1, 6) {
+            self.note("match-arm-is-a-call");
+            self.force_arg_block = true;
+            let call = self.gen_call(ty, d);
+            self.force_arg_block = false;
+            return Block { stmts: vec![], tail: Some(Box::new(call)) };
+        }
+        self.gen_block(ty, d, false)
+    }
+
     fn gen_match(&mut self, ty: &Ty, d: u32) -> Expr {
         self.note("match");
         // scrutinee type
@@ -852,7 +886,7 @@ impl<'r> Gen<'r> {
             for vi in order {
                 self.scopes.push(vec![]);
                 let p = self.gen_variant_pat(*ei, vi, 1, false);
-                let b = self.gen_block(ty, d, false);
+                let b = self.arm_block(ty, d);
                 self.scopes.pop();
                 arms.push((p, b));
             }
@@ -860,7 +894,7 @@ impl<'r> Gen<'r> {
             let first = self.rng.bool();
             for b in [first, !first] {
                 self.scopes.push(vec![]);
-                let body = self.gen_block(ty, d, false);
+                let body = self.arm_block(ty, d);
                 self.scopes.pop();
                 arms.push((Pat::Bool(b), body));
             }
@@ -869,7 +903,7 @@ impl<'r> Gen<'r> {
             for _ in 0..n {
                 self.scopes.push(vec![]);
                 let p = self.gen_refutable(&sty, 2);
-                let b = self.gen_block(ty, d, false);
+                let b = self.arm_block(ty, d);
                 self.scopes.pop();
                 arms.push((p, b));
             }
@@ -882,7 +916,7 @@ impl<'r> Gen<'r> {
                 self.declare(&n, sty.clone(), false);
                 Pat::Bind(n)
             };
-            let b = self.gen_block(ty, d, false);
+            let b = self.arm_block(ty, d);
             self.scopes.pop();
             arms.push((p, b));
         }
